@@ -79,6 +79,9 @@ struct Inner {
     last_progress: Instant,
     /// consecutive observations of the running thread sleeping in a futex wait
     asleep: u32,
+    /// the running thread waits inside the scheduler itself (for a spawned thread to register):
+    /// that is no block on an unknown primitive, however long it takes on a loaded machine
+    internal_wait: u32,
     log: Vec<String>,
     keep_log: bool,
 }
@@ -171,6 +174,7 @@ impl Sched {
                 detect_real_blocking: cfg.detect_real_blocking,
                 last_progress: Instant::now(),
                 asleep: 0,
+                internal_wait: 0,
                 log: Vec::new(),
                 keep_log: cfg.keep_log,
             }),
@@ -328,7 +332,7 @@ impl Sched {
                     .wait_timeout(g, Duration::from_millis(if expected { 1 } else { 10 }))
                     .unwrap_or_else(|e| e.into_inner());
                 g = ng;
-                if to.timed_out() {
+                if to.timed_out() && g.internal_wait == 0 {
                     if let Some(r) = g.running {
                         // independent of machine load: a thread that merely waits for a CPU is
                         // runnable ('R'); only a thread that sleeps in a futex wait (mutex, join)
@@ -484,6 +488,7 @@ impl Sched {
                     *e
                 };
                 let t0 = Instant::now();
+                g.internal_wait += 1;
                 while g.registered.get(&kind).copied().unwrap_or(0) < c {
                     let (ng, _) = self
                         .cv
@@ -495,6 +500,9 @@ impl Sched {
                         break;
                     }
                 }
+                g.internal_wait -= 1;
+                g.last_progress = Instant::now();
+                g.asleep = 0;
             }
             (_, Some(tid)) => {
                 if !Self::is_sched_point(&g, &op) {
@@ -615,9 +623,14 @@ impl Sched {
             })
             .expect("spawn harness thread");
         let mut g = self.lock();
+        g.internal_wait += 1;
         while g.registered.get(&kind).copied().unwrap_or(0) <= before {
             g = self.cv.wait(g).unwrap_or_else(|e| e.into_inner());
         }
+        g.internal_wait -= 1;
+        g.last_progress = Instant::now();
+        g.asleep = 0;
+        drop(g);
         h
     }
 
